@@ -98,4 +98,44 @@ CHECKS = {
             dict(pkg="migr", run="TestC19CopyStable", checks_quick=150, checks_thorough=2000, shards_quick=4, shards_thorough=8, timeout_quick=400, timeout_thorough=2400),
         ],
     ),
+    "C01": dict(
+        level="fault_enumeration",
+        technique="crash-point enumeration over rapid-generated workloads on the composed WAL (real segment code on SimFS+SimMeta): every sampled mutating I/O event x torn-write subset, nested crashes, allowed-post-crash-state oracle from acknowledgements",
+        rule="rapid-generated workloads (appends of 1-5 entries with sizes around 0/8/segment/3/segment, head/tail/everything DeleteRange, stable Set, clean reopen) over segment sizes {1..4096}; 0-3 earlier phases each ended by a crash at a generated event with a generated torn subset, then the final phase is re-executed with a crash after each chosen event k (all k in thorough; <=32 incl. all neighbours of CommitState/Create/Unlink in quick) x 9 (quick) / 15 (thorough) tear plans (none, all, prefix, suffix, allButFirst, allButLast, onlyLast, drawn masks; directory entries kept/lost; preallocated length kept/lost). Verdict: after every recovery Open succeeds and every acknowledged entry not covered by an acknowledged/in-flight DeleteRange reads back equal, within [FirstIndex,LastIndex]; acknowledged stable keys keep their value. Non-trivial = a crash variant with at least one acknowledged append before it and something volatile (un-synced write or pending directory entry) at the crash; distinct = FNV-64 of (case, k, tear#)",
+        expect_classes=["crash-in-append", "crash-in-del", "crash-in-open", "crash-in-background-or-between-ops", "crash-in-set", "clean-reopen", "head-trunc", "tail-trunc", "nested-depth>=2", "nested-depth>=3", "crash-after-CommitState", "crash-after-Create", "crash-after-WriteAt", "crash-after-SyncFile", "crash-after-SyncDir", "crash-after-Unlink", "crash-after-UnlinkDirSync"],
+        assumptions=COMMON_ASSUME + SIM_ASSUME + ["crash model = the one the properties name: every subset of 8-byte-aligned chunks of un-synced writes, pending directory operations kept or lost, file length; garbled sector contents are not generated", "mutating I/O is issued by one goroutine at a time (the harness waits for the background rotation after each append), so event numbering is deterministic"],
+        jobs=[dict(pkg="crash", run="TestCrashC01", checks_quick=30, checks_thorough=500, shards_quick=16, shards_thorough=16, shrinktime="15s", timeout_quick=600, timeout_thorough=3000)],
+    ),
+    "C02": dict(
+        level="fault_enumeration",
+        technique="crash-point enumeration over rapid-generated workloads on the composed WAL (real segment code on SimFS+SimMeta): every sampled mutating I/O event x torn-write subset, nested crashes, allowed-post-crash-state oracle from acknowledgements",
+        rule="rapid-generated workloads (appends of 1-5 entries with sizes around 0/8/segment/3/segment, head/tail/everything DeleteRange, stable Set, clean reopen) over segment sizes {1..4096}; 0-3 earlier phases each ended by a crash at a generated event with a generated torn subset, then the final phase is re-executed with a crash after each chosen event k (all k in thorough; <=32 incl. all neighbours of CommitState/Create/Unlink in quick) x 9 (quick) / 15 (thorough) tear plans (none, all, prefix, suffix, allButFirst, allButLast, onlyLast, drawn masks; directory entries kept/lost; preallocated length kept/lost). Generator profile: 70% hostile payloads (8-byte words that look like entry/index/commit frame headers, aligned to file words), size coupling with earlier batches, phases ending with an append torn in flight, chains of up to 4 crash/recover/append rounds. Verdict: recovered [first,last] is contiguous, every entry readable and equal to the latest submission for its index, the in-flight batch is present in full or absent, i.e. the recovered state is one of {acknowledged, acknowledged+in-flight}. Non-trivial = a crash variant with an acknowledged append before it and something volatile at the crash; distinct = FNV-64 of (case, k, tear#)",
+        expect_classes=["crash-in-append", "crash-in-del", "crash-in-open", "crash-in-background-or-between-ops", "crash-in-set", "clean-reopen", "head-trunc", "tail-trunc", "nested-depth>=2", "nested-depth>=3", "crash-after-CommitState", "crash-after-Create", "crash-after-WriteAt", "crash-after-SyncFile", "crash-after-SyncDir", "crash-after-Unlink", "crash-after-UnlinkDirSync", "phase-crash-torn-last-write", "nested-depth>=4"],
+        assumptions=COMMON_ASSUME + SIM_ASSUME + ["crash model = the one the properties name: every subset of 8-byte-aligned chunks of un-synced writes, pending directory operations kept or lost, file length; garbled sector contents are not generated", "mutating I/O is issued by one goroutine at a time (the harness waits for the background rotation after each append), so event numbering is deterministic"],
+        jobs=[dict(pkg="crash", run="TestCrashC02", checks_quick=30, checks_thorough=500, shards_quick=16, shards_thorough=16, shrinktime="15s", timeout_quick=600, timeout_thorough=3000)],
+    ),
+    "C03": dict(
+        level="fault_enumeration",
+        technique="crash-point enumeration over rapid-generated workloads on the composed WAL (real segment code on SimFS+SimMeta): every sampled mutating I/O event x torn-write subset, nested crashes, allowed-post-crash-state oracle from acknowledgements",
+        rule="rapid-generated workloads (appends of 1-5 entries with sizes around 0/8/segment/3/segment, head/tail/everything DeleteRange, stable Set, clean reopen) over segment sizes {1..4096}; 0-3 earlier phases each ended by a crash at a generated event with a generated torn subset, then the final phase is re-executed with a crash after each chosen event k (all k in thorough; <=32 incl. all neighbours of CommitState/Create/Unlink in quick) x 9 (quick) / 15 (thorough) tear plans (none, all, prefix, suffix, allButFirst, allButLast, onlyLast, drawn masks; directory entries kept/lost; preallocated length kept/lost). Verdict: Open succeeds on every image and the recovered WAL passes a usability script (append at last+1, Set, head and tail DeleteRange, re-append, Close/Open, append) whose effects survive one more power loss that drops everything un-synced. Non-trivial = a crash variant with an acknowledged append before it and something volatile at the crash; distinct = FNV-64 of (case, k, tear#)",
+        expect_classes=["crash-in-append", "crash-in-del", "crash-in-open", "crash-in-background-or-between-ops", "crash-in-set", "clean-reopen", "head-trunc", "tail-trunc", "nested-depth>=2", "nested-depth>=3", "crash-after-CommitState", "crash-after-Create", "crash-after-WriteAt", "crash-after-SyncFile", "crash-after-SyncDir", "crash-after-Unlink", "crash-after-UnlinkDirSync"],
+        assumptions=COMMON_ASSUME + SIM_ASSUME + ["crash model = the one the properties name: every subset of 8-byte-aligned chunks of un-synced writes, pending directory operations kept or lost, file length; garbled sector contents are not generated", "mutating I/O is issued by one goroutine at a time (the harness waits for the background rotation after each append), so event numbering is deterministic"],
+        jobs=[dict(pkg="crash", run="TestCrashC03", checks_quick=30, checks_thorough=500, shards_quick=16, shards_thorough=16, shrinktime="15s", timeout_quick=600, timeout_thorough=3000)],
+    ),
+    "C04": dict(
+        level="fault_enumeration",
+        technique="crash-point enumeration over rapid-generated workloads on the composed WAL (real segment code on SimFS+SimMeta): every sampled mutating I/O event x torn-write subset, nested crashes, allowed-post-crash-state oracle from acknowledgements",
+        rule="rapid-generated workloads (appends of 1-5 entries with sizes around 0/8/segment/3/segment, head/tail/everything DeleteRange, stable Set, clean reopen) over segment sizes {1..4096}; 0-3 earlier phases each ended by a crash at a generated event with a generated torn subset, then the final phase is re-executed with a crash after each chosen event k (all k in thorough; <=32 incl. all neighbours of CommitState/Create/Unlink in quick) x 9 (quick) / 15 (thorough) tear plans (none, all, prefix, suffix, allButFirst, allButLast, onlyLast, drawn masks; directory entries kept/lost; preallocated length kept/lost). Generator profile: 45% truncations (prefix inside head segment, whole segments, everything; suffix inside tail, whole segments), re-appends of different content at the same indexes. Verdict: acknowledged DeleteRange stays applied; an in-flight DeleteRange is fully applied or not at all (bounds and contents equal the before or the after model); re-appended indexes never show the older acknowledged generation. Non-trivial = a crash variant with an acknowledged append before it and something volatile at the crash; distinct = FNV-64 of (case, k, tear#)",
+        expect_classes=["crash-in-append", "crash-in-del", "crash-in-open", "crash-in-background-or-between-ops", "crash-in-set", "clean-reopen", "head-trunc", "tail-trunc", "nested-depth>=2", "nested-depth>=3", "crash-after-CommitState", "crash-after-Create", "crash-after-WriteAt", "crash-after-SyncFile", "crash-after-SyncDir", "crash-after-Unlink", "crash-after-UnlinkDirSync"],
+        assumptions=COMMON_ASSUME + SIM_ASSUME + ["crash model = the one the properties name: every subset of 8-byte-aligned chunks of un-synced writes, pending directory operations kept or lost, file length; garbled sector contents are not generated", "mutating I/O is issued by one goroutine at a time (the harness waits for the background rotation after each append), so event numbering is deterministic"],
+        jobs=[dict(pkg="crash", run="TestCrashC04", checks_quick=30, checks_thorough=500, shards_quick=16, shards_thorough=16, shrinktime="15s", timeout_quick=600, timeout_thorough=3000)],
+    ),
+    "C13": dict(
+        level="fault_enumeration",
+        technique="crash-point enumeration over rapid-generated workloads on the composed WAL (real segment code on SimFS+SimMeta): every sampled mutating I/O event x torn-write subset, nested crashes, allowed-post-crash-state oracle from acknowledgements",
+        rule="rapid-generated workloads (appends of 1-5 entries with sizes around 0/8/segment/3/segment, head/tail/everything DeleteRange, stable Set, clean reopen) over segment sizes {1..4096}; 0-3 earlier phases each ended by a crash at a generated event with a generated torn subset, then the final phase is re-executed with a crash after each chosen event k (all k in thorough; <=32 incl. all neighbours of CommitState/Create/Unlink in quick) x 9 (quick) / 15 (thorough) tear plans (none, all, prefix, suffix, allButFirst, allButLast, onlyLast, drawn masks; directory entries kept/lost; preallocated length kept/lost). Verdict (crash part): after every successful Open the directory holds exactly the files of the segments in committed metadata; Create never hits an existing name; no segment ID is created again after it was retired from metadata or under a different base index. Non-trivial = a crash variant with an acknowledged append before it and something volatile at the crash; distinct = FNV-64 of (case, k, tear#)",
+        expect_classes=["crash-in-append", "crash-in-del", "crash-in-open", "crash-in-background-or-between-ops", "crash-in-set", "clean-reopen", "head-trunc", "tail-trunc", "nested-depth>=2", "nested-depth>=3", "crash-after-CommitState", "crash-after-Create", "crash-after-WriteAt", "crash-after-SyncFile", "crash-after-SyncDir", "crash-after-Unlink", "crash-after-UnlinkDirSync"],
+        assumptions=COMMON_ASSUME + SIM_ASSUME + ["crash model = the one the properties name: every subset of 8-byte-aligned chunks of un-synced writes, pending directory operations kept or lost, file length; garbled sector contents are not generated", "mutating I/O is issued by one goroutine at a time (the harness waits for the background rotation after each append), so event numbering is deterministic"],
+        jobs=[dict(pkg="crash", run="TestCrashC13", checks_quick=30, checks_thorough=500, shards_quick=16, shards_thorough=16, shrinktime="15s", timeout_quick=600, timeout_thorough=3000)],
+    ),
 }
